@@ -264,6 +264,11 @@ def run(ctx):
     # re-run here: reporting the address written inside the reply lets two hosts collapse into one, or one host appear under another's)
     from .c17 import reported_ip_is_source
     reported_ip_is_source(ctx, "C18.a")
+    # the set of hosts already seen belongs to one discovery run: created in __init__, not one class-level object (whatever function of the
+    # protocol updates it)
+    per_run_state(ctx, "C18.a")
+    from ..shared import check as shared_check
+    shared_check(ctx, "C18.a", [prog.cls("msmart.discover._DiscoverProtocol")], "the discovery protocol")
     ctx.require_min("create_task_sites", 1)
     ctx.require_min("boundaries", 2)
     ctx.require_min("raiser_sites", 8)
